@@ -1,5 +1,6 @@
 """Writing IR-code into a textual format."""
 
+from binascii import hexlify
 from .verify import verify_module
 from .. import ir
 
@@ -43,11 +44,25 @@ class Writer:
 
         for variable in module.variables:
             self._print(0, "")
-            self._print(0, str(variable))
+            self._print(0, str(variable) + self._initial_value(variable))
 
         for function in module.functions:
             self._print(0, "")
             self.write_function(function)
+
+    @staticmethod
+    def _initial_value(variable):
+        """Textual form of the initial value of a variable"""
+        if variable.value is None:
+            return ""
+        parts = []
+        for part in variable.value:
+            if isinstance(part, bytes):
+                parts.append("'{}'".format(hexlify(part).decode("ascii")))
+            else:
+                assert part[0] is ir.ptr
+                parts.append(f"&{part[1]}")
+        return " = " + ", ".join(parts)
 
     def write_function(self, function):
         self._print(0, f"{function} {{")
